@@ -238,7 +238,7 @@ class Engine:
                                  ("line_length_limit", [200, 80]), ("report_level", [1, 3]),
                                  ("strip_comments", [True]), ("doctitle_xform", [False]),
                                  ("syntax_highlight", ["short", "none"]), ("id_prefix", ["p-"])):
-                if g.random() < 0.3:
+                if g.random() < (0.5 if name == "strip_comments" else 0.3):
                     dsettings[name] = g.choice(values)
         base = {"engine": self.name, "front_end": front_end, "files": files, "cfg": cfg, "urls": urls,
                 "inv_conditions": inv_conditions, "docutils_settings": dsettings,
